@@ -364,6 +364,7 @@ def _prep_outfile(repo):
 # ------------------------------------------------------------------------------------------------ C. call sites
 SINGLE = ["invert_freq", "apply_channel_mask", "downsample", "extract_samps", "requantize", "remove_zerodm", "subband"]
 MULTI = ["extract_chans", "extract_bands"]
+BATCH = {}
 FORBIDDEN_CALLS = ("edit_header", "truncate", "os.replace", "os.rename", "os.remove", "os.unlink", "shutil.move", "shutil.copy")
 
 
@@ -467,6 +468,92 @@ def _site_single(fn, where):
     return pre, loop, post
 
 
+def _bexpr(e, env, where):
+    """integer expression of the batching arithmetic: names, literals, + - *, min/max"""
+    if isinstance(e, ast.Constant) and isinstance(e.value, int) and not isinstance(e.value, bool):
+        return str(e.value) if e.value >= 0 else f"({e.value})"
+    if isinstance(e, ast.Name):
+        if e.id in env:
+            return env[e.id]
+        raise Unsupported(f"{where}: batching arithmetic uses an unknown name {e.id}")
+    if isinstance(e, ast.UnaryOp) and isinstance(e.op, ast.USub):
+        return f"(- {_bexpr(e.operand, env, where)})"
+    if isinstance(e, ast.BinOp) and isinstance(e.op, (ast.Add, ast.Sub, ast.Mult)):
+        op = {ast.Add: "+", ast.Sub: "-", ast.Mult: "*"}[type(e.op)]
+        return f"({_bexpr(e.left, env, where)} {op} {_bexpr(e.right, env, where)})"
+    if isinstance(e, ast.Call) and isinstance(e.func, ast.Name) and e.func.id in ("min", "max") and len(e.args) == 2 and not e.keywords:
+        return f"(Z.{e.func.id} {_bexpr(e.args[0], env, where)} {_bexpr(e.args[1], env, where)})"
+    raise Unsupported(f"{where}: batching arithmetic outside the subset: {_u(e)[:80]}")
+
+
+def _batching(fn, w, gen, where):
+    """the loop `for batch_start in range(0, n, batch_size)` around the with-block, the slice of the returned file-name list that
+    is opened in one batch, as (lo, hi) Gallina expressions over batch_start, batch_size, n"""
+    body = _body(fn)
+    outer = [s for s in body if isinstance(s, ast.For) and w in s.body]
+    if len(outer) != 1:
+        raise Unsupported(f"{where}: the with-block is not directly inside one top-level batch loop")
+    lp = outer[0]
+    if lp.orelse or not isinstance(lp.target, ast.Name):
+        raise Unsupported(f"{where}: batch loop target/else changed")
+    bvar = lp.target.id
+    it = lp.iter
+    if not (isinstance(it, ast.Call) and _u(it.func) == "range" and len(it.args) == 3 and _const_int(it.args[0]) == 0
+            and isinstance(it.args[1], ast.Name) and _u(it.args[2]) == "batch_size"):
+        raise Unsupported(f"{where}: batch loop is not `for {bvar} in range(0, <count>, batch_size)`: {_u(it)}")
+    if "batch_size" not in [a.arg for a in fn.args.args + fn.args.kwonlyargs]:
+        raise Unsupported(f"{where}: batch_size is not a parameter")
+    nvar = it.args[1].id
+    rets = [s for s in body if isinstance(s, ast.Return)]
+    if len(rets) != 1 or not isinstance(rets[0].value, ast.Name):
+        raise Unsupported(f"{where}: does not return the list of file names")
+    flist = rets[0].value.id
+    fdef = [s for s in body if isinstance(s, ast.Assign) and _u(s.targets[0]) == flist]
+    if len(fdef) != 1 or not (isinstance(fdef[0].value, ast.ListComp) and len(fdef[0].value.generators) == 1 and not fdef[0].value.generators[0].ifs):
+        raise Unsupported(f"{where}: the file-name list {flist} is not one plain list comprehension")
+    src = fdef[0].value.generators[0].iter
+    if isinstance(src, ast.Call) and _u(src.func) == "range" and len(src.args) == 1 and _u(src.args[0]) == nvar:
+        pass
+    elif isinstance(src, ast.Name) and any(isinstance(s, ast.Assign) and _u(s.targets[0]) == nvar and _u(s.value) == f"len({src.id})" for s in body):
+        pass
+    else:
+        raise Unsupported(f"{where}: the batch loop does not count the file names: range(0, {nvar}, ...) vs {flist} over {_u(src)}")
+    for s in body:
+        if s is not fdef[0] and isinstance(s, (ast.Assign, ast.AugAssign)) and any(isinstance(n, ast.Name) and n.id in (flist, nvar) and isinstance(n.ctx, ast.Store) for n in ast.walk(s)):
+            if not (isinstance(s, ast.Assign) and _u(s.targets[0]) == nvar):
+                raise Unsupported(f"{where}: {flist}/{nvar} modified: {_u(s)[:60]}")
+    env = {bvar: "batch_start", "batch_size": "batch_size", nvar: "n"}
+    slices = {}
+    for s in lp.body:
+        if s is w:
+            break
+        if not (isinstance(s, ast.Assign) and len(s.targets) == 1 and isinstance(s.targets[0], ast.Name)):
+            raise Unsupported(f"{where}: statement in the batch loop before the with-block is not a plain assignment: {_u(s)[:60]}")
+        t = s.targets[0].id
+        if t in env or t in slices:
+            raise Unsupported(f"{where}: {t} assigned twice in the batch loop")
+        if isinstance(s.value, ast.Subscript) and isinstance(s.value.slice, ast.Slice):
+            sl = s.value.slice
+            if sl.step is not None or sl.lower is None or sl.upper is None or not isinstance(s.value.value, ast.Name):
+                raise Unsupported(f"{where}: batch slice with a step / open end: {_u(s)[:60]}")
+            slices[t] = (s.value.value.id, _bexpr(sl.lower, env, where), _bexpr(sl.upper, env, where))
+        else:
+            env[t] = _bexpr(s.value, env, where)
+    if lp.body[-1] is not w:
+        raise Unsupported(f"{where}: statements after the with-block in the batch loop")
+    used = [n.id for n in ast.walk(gen.iter) if isinstance(n, ast.Name) and n.id in slices]
+    files = [t for t in used if slices[t][0] == flist]
+    if len(files) != 1:
+        raise Unsupported(f"{where}: the writers of a batch are not opened over one slice of {flist}")
+    lo, hi = slices[files[0]][1:]
+    for t, (b, l2, h2) in slices.items():
+        if (l2, h2) != (lo, hi):
+            raise Unsupported(f"{where}: batch slices disagree: {t} = {b}[{l2}:{h2}] vs {flist}[{lo}:{hi}]")
+    if isinstance(gen.iter, ast.Call) and _u(gen.iter.func) == "zip" and not any(k.arg == "strict" and _u(k.value) == "True" for k in gen.iter.keywords):
+        raise Unsupported(f"{where}: zip over the batch without strict=True")
+    return lo, hi
+
+
 def _site_multi(fn, where):
     """out_files = [stack.enter_context(self.header.prep_outfile(filename, ...)) for ... in batch_files] inside `with ExitStack() as stack`;
        for ... in self.read_plan(...): for ifile, out_file in enumerate(out_files): out_file.cwrite(...)"""
@@ -539,6 +626,7 @@ def _site_multi(fn, where):
                 continue
             raise Unsupported(f"{where}: the output path {namevar} is used for something else: {_u(p)[:80]}")
     # leaving the with-block runs FileBase.__exit__ on every writer
+    BATCH[fn.name] = _batching(fn, w, gen, where)
     return ["KPrep"], loop, ["KExit"]
 
 
@@ -795,6 +883,7 @@ def gen_c20_sites(repo):
         out.append("(* UNSUPPORTED prep_outfile: " + _cm(str(e)) + " *)\n")
     # C
     try:
+        BATCH.clear()
         sites, errs = _sites(repo)
         errors += errs
         for name, cname, r, line, pre, loop, post, oneshot in sites:
@@ -802,6 +891,13 @@ def gen_c20_sites(repo):
             out.append(f"(* {cname}.{name} ({r}:{line}): before the data / per {kind} / after *)")
             out.append(f"Definition site_{name} : site := mksite {_lst(pre)} {_lst(loop)} {_lst(post)}.")
         out.append("Definition all_sites : list site := " + _lst([f"site_{s[0]}" for s in sites]) + ".\n")
+        for name in MULTI:
+            if name in BATCH:
+                lo, hi = BATCH[name]
+                out.append(f"(* Filterbank.{name}: `for batch_start in range(0, n, batch_size)`; the writers of one batch are opened over filenames[lo:hi], n = len(filenames) *)")
+                out.append(f"Definition batch_lo_{name} (batch_start batch_size n : Z) : Z := {lo}.")
+                out.append(f"Definition batch_hi_{name} (batch_start batch_size n : Z) : Z := {hi}.")
+        out.append("")
     except Unsupported as e:
         errors.append(str(e))
         out.append("(* UNSUPPORTED call sites: " + _cm(str(e)) + " *)\n")
